@@ -3,7 +3,7 @@
    path and with exactly the generations its own ascmhl folder holds.  (LoadFacts has the other direction: every element of
    the list sits at an existing folder, and roots are pairwise distinct.) *)
 From Coq Require Import Lia Permutation Sorting.Sorted.
-From MHL Require Import Model.Commands Gen.Generated Proofs.BaseFacts Proofs.TreeFacts Proofs.LoadFacts.
+From MHL Require Import Model.Commands Gen.Generated Proofs.BaseFacts Proofs.TreeFacts Proofs.LoadFacts Proofs.RouteFacts.
 
 Section LoadComplete.
   Variable C : Type.
@@ -104,5 +104,22 @@ Section LoadComplete.
     - exfalso. apply Hna. apply in_map_iff. exists lh'. split; [congruence|exact Hin'].
     - exfalso. apply Hna. apply in_map_iff. exists lh. split; [congruence|exact Hin].
     - apply IH; assumption.
+  Qed.
+
+  (* hence the history a path is routed to is the deepest history OF THE TREE that contains it: it contains the path, it is
+     one of the tree's histories or the command's root, and no folder on the way down to the path that carries an ascmhl
+     folder lies deeper than its root *)
+  Theorem routed_to_deepest_of_tree (t : node) hs p :
+    load C cdig t = inl hs ->
+    is_prefix (lh_root (route_to hs p)) p = true /\
+    forall q hq, get_hist C t q = Some hq -> is_prefix q p = true -> length q <= length (lh_root (route_to hs p)).
+  Proof.
+    intros Hl. destruct (load_shape C cdig t hs Hl) as [below [rooth [-> [_ [Hr _]]]]].
+    assert (Hlast : root_hist (below ++ [rooth]) = rooth) by (unfold root_hist; apply last_last).
+    assert (Hgood : good p (root_hist (below ++ [rooth]))) by (unfold good; rewrite Hlast, Hr; reflexivity).
+    destruct (route_deepest (below ++ [rooth]) (root_hist (below ++ [rooth])) p Hgood) as [H1 [_ H3]].
+    split; [exact H1|]. intros q hq Hq Hpre.
+    destruct (load_complete t (below ++ [rooth]) Hl q hq Hq) as [lh [Hin [Hroot _]]].
+    specialize (H3 lh Hin). unfold good in H3. rewrite Hroot in H3. apply H3. exact Hpre.
   Qed.
 End LoadComplete.
